@@ -63,10 +63,32 @@ class _Order(ast.NodeVisitor):
 
     visit_ListComp = visit_SetComp = visit_GeneratorExp = visit_DictComp = _comp
 
+    def _scoped(self, node, params, body, name=None):
+        """A nested function / lambda: its parameters and the names it stores are its own; only its free-variable loads are events of the
+        enclosing statement list (approximation: recorded where the function is defined)."""
+        for d in getattr(node.args, "defaults", []) + [d for d in getattr(node.args, "kw_defaults", []) if d is not None]:
+            self.visit(d)
+        inner = _Order()
+        for b in body:
+            inner.visit(b)
+        own = set(params) | {n for k, n, _ in inner.events if k in ("store", "aug")}
+        for k, n, nd in inner.events:
+            if n not in own:
+                self.events.append((k, n, nd))
+        if name:
+            self.events.append(("store", name, node))
+
     def visit_Lambda(self, node):
-        for a in node.args.args:
-            self.events.append(("store", a.arg, node))
-        self.visit(node.body)
+        a = node.args
+        params = [x.arg for x in a.posonlyargs + a.args + a.kwonlyargs] + [x.arg for x in (a.vararg, a.kwarg) if x]
+        self._scoped(node, params, [node.body])
+
+    def visit_FunctionDef(self, node):
+        a = node.args
+        params = [x.arg for x in a.posonlyargs + a.args + a.kwonlyargs] + [x.arg for x in (a.vararg, a.kwarg) if x]
+        for d in node.decorator_list:
+            self.visit(d)
+        self._scoped(node, params, node.body, name=node.name)
 
     def _target(self, t):
         if isinstance(t, ast.Name):
@@ -112,7 +134,7 @@ def map_loop(fn_node, ordinal, accumulators, local_ok=()):
         if isinstance(node, ast.Name) and node.id in accumulators:
             ok = False
             for parent in ast.walk(ast.Module(body=loop.body, type_ignores=[])):
-                if isinstance(parent, ast.Call) and isinstance(parent.func, ast.Attribute) and parent.func.attr in ("append",):
+                if isinstance(parent, ast.Call) and isinstance(parent.func, ast.Attribute) and parent.func.attr in ("append", "extend"):
                     base = parent.func.value
                     while isinstance(base, ast.Subscript):
                         base = base.value
@@ -261,11 +283,43 @@ class ClassFrames:
                 for el in target.elts:
                     bind(el, path)
 
+        def const_strs(e):
+            if isinstance(e, (ast.Tuple, ast.List, ast.Set)) and e.elts and all(isinstance(x, ast.Constant) and isinstance(x.value, str) for x in e.elts):
+                return [x.value for x in e.elts]
+            return None
+
+        # names bound exactly once to a constant tuple/list of strings: locals of this method, class attributes, module globals
+        named_consts, counts = {}, {}
+        scopes = [("local", list(ast.walk(node))), ("class", list(self.cls.body)), ("module", list(getattr(getattr(self.mod, "tree", None), "body", []) or []))]
+        for scope, stmts in scopes:
+            for st in stmts:
+                if isinstance(st, ast.Assign) and len(st.targets) == 1 and isinstance(st.targets[0], ast.Name):
+                    key = (scope, st.targets[0].id)
+                    counts[key] = counts.get(key, 0) + 1
+                    v = const_strs(st.value)
+                    if v is not None:
+                        named_consts[key] = v
+
+        def resolve_iter(e):
+            v = const_strs(e)
+            if v is not None:
+                return v
+            if isinstance(e, ast.Name):
+                for scope in ("local", "module"):
+                    if counts.get((scope, e.id)) == 1 and (scope, e.id) in named_consts:
+                        return named_consts[(scope, e.id)]
+                    if counts.get((scope, e.id)):
+                        return None
+            if isinstance(e, ast.Attribute) and isinstance(e.value, ast.Name) and e.value.id in ("self", "cls", self.cls.name):
+                if counts.get(("class", e.attr)) == 1 and ("class", e.attr) in named_consts:
+                    return named_consts[("class", e.attr)]
+            return None
         const_iters = {}
         for st in ast.walk(node):
-            if isinstance(st, ast.For) and isinstance(st.target, ast.Name) and isinstance(st.iter, (ast.Tuple, ast.List)) \
-                    and all(isinstance(e, ast.Constant) and isinstance(e.value, str) for e in st.iter.elts):
-                const_iters[st.target.id] = [e.value for e in st.iter.elts]
+            if isinstance(st, ast.For) and isinstance(st.target, ast.Name):
+                v = resolve_iter(st.iter)
+                if v is not None:
+                    const_iters[st.target.id] = v
         # a linear pass in source order is enough for the alias approximation (aliases only grow)
         for n in sorted((x for x in ast.walk(node) if hasattr(x, "lineno")), key=lambda x: (x.lineno, x.col_offset)):
             if isinstance(n, ast.Assign):
